@@ -188,3 +188,31 @@ func TestRegressSpelling(t *testing.T) {
 	StatsFor("C06").Case(true, "regress: owner and recipient spelled in upper case")
 	StatsFor("C17").Case(true, "regress: owner and recipient spelled in upper case")
 }
+
+// TestRegressC11NodeFlags: a node started with --x-crisis-skip-assert-invariants (and / or an
+// invariant check period) computes the same app hashes as one started with the defaults (fixed
+// 389f38f: the distributor main account got its account number from whoever called
+// GetModuleAccount first, which was the module's invariant run by x/crisis at genesis).
+func TestRegressC11NodeFlags(t *testing.T) {
+	gen := GenesisBytes(BaseSpec())
+	run := func(f NodeFlags) []string {
+		c := NewChainFromGenesisWith(gen, 1, T0, f)
+		var out []string
+		for i := 0; i < 4; i++ {
+			bt := c.Begin(T0.Add(time.Duration(5*(i+1)) * time.Second))
+			c.End(&bt)
+			out = append(out, bt.AppHash)
+		}
+		return out
+	}
+	want := run(NodeFlags{})
+	for _, f := range []NodeFlags{{SkipGenesisInvariants: true}, {InvCheckPeriod: 1}, {SkipGenesisInvariants: true, InvCheckPeriod: 2}} {
+		got := run(f)
+		for i := range want {
+			if got[i] != want[i] {
+				t.Fatalf("node started with %+v: app hash at height %d is %s, a node started with the defaults has %s", f, i+1, got[i], want[i])
+			}
+		}
+	}
+	StatsFor("C11").Case(true, "regress: node-local crisis flags")
+}
